@@ -346,3 +346,93 @@ pub fn run_exhaustive(out: &mut Out, cfg: &Cfg, shard: usize, nshards: usize) {
         emit(out, cfg, &c);
     }
 }
+
+// ------------------------------------------------------------------ C11: alpha-renamings of the rules
+
+fn map_names_term(t: &Unifiable, f: &dyn Fn(&str) -> String) -> Unifiable {
+    match t {
+        Unifiable::LogicVar{id, name} => Unifiable::LogicVar{id: *id, name: f(name)},
+        Unifiable::SComplex(a) => Unifiable::SComplex(a.iter().map(|x| map_names_term(x, f)).collect()),
+        Unifiable::SFunction{name, terms} => Unifiable::SFunction{name: name.clone(), terms: terms.iter().map(|x| map_names_term(x, f)).collect()},
+        Unifiable::SLinkedList{term, next, count, tail_var} => Unifiable::SLinkedList{term: Box::new(map_names_term(term, f)), next: Box::new(map_names_term(next, f)), count: *count, tail_var: *tail_var},
+        _ => t.clone(),
+    }
+}
+fn map_names_goal(g: &Goal, f: &dyn Fn(&str) -> String) -> Goal {
+    match g {
+        Goal::ComplexGoal(t) => Goal::ComplexGoal(map_names_term(t, f)),
+        Goal::BuiltInGoal(b) => Goal::BuiltInGoal(BuiltInPredicate::new(b.functor.clone(), b.terms.as_ref().map(|ts| ts.iter().map(|x| map_names_term(x, f)).collect()))),
+        Goal::OperatorGoal(op) => Goal::OperatorGoal(match op {
+            Operator::And(gs) => Operator::And(gs.iter().map(|x| map_names_goal(x, f)).collect()),
+            Operator::Or(gs) => Operator::Or(gs.iter().map(|x| map_names_goal(x, f)).collect()),
+            Operator::Time(gs) => Operator::Time(gs.iter().map(|x| map_names_goal(x, f)).collect()),
+            Operator::Not(gs) => Operator::Not(gs.iter().map(|x| map_names_goal(x, f)).collect()),
+        }),
+        Goal::Nil => Goal::Nil,
+    }
+}
+
+/// answers with variables numbered by first occurrence (names and ids dropped), outputs with
+/// printed variable names replaced by a placeholder
+fn canon_answers(info: &RunInfo) -> Vec<String> {
+    let mut v = vec![];
+    for (a, o) in info.answers.iter().zip(info.outs.iter()) {
+        let a2 = match a {
+            Some(s) => {
+                let mut m: Vec<String> = vec![]; let mut toks = vec![];
+                for t in s.split(' ') {
+                    if t.starts_with("V:") { let id = t.split(':').nth(1).unwrap_or("").to_string(); let k = match m.iter().position(|x| *x == id) { Some(k) => k, None => { m.push(id); m.len() - 1 } }; toks.push(format!("V#{}", k)); }
+                    else { toks.push(t.to_string()); }
+                }
+                toks.join(" ")
+            },
+            None => "none".to_string(),
+        };
+        // printed unbound variables look like $Name_12
+        let mut o2 = String::new(); let cs: Vec<char> = o.chars().collect(); let mut i = 0;
+        while i < cs.len() {
+            if cs[i] == '$' && i + 1 < cs.len() && cs[i + 1].is_alphabetic() {
+                let mut j = i + 1; while j < cs.len() && (cs[j].is_alphanumeric() || cs[j] == '_') { j += 1; }
+                o2.push_str("$?"); i = j;
+            } else { o2.push(cs[i]); i += 1; }
+        }
+        v.push(format!("{} | {}", a2, o2));
+    }
+    v
+}
+
+pub fn emit_c11(out: &mut Out, cfg: &Cfg, c: &Case, r: &mut Rng) {
+    let base = match emit_info(out, cfg, c) { Some(i) => i, None => { for _ in 0..3 { let _ = out.begin(); } return; } };
+    let want = canon_answers(&base);
+    let perm: Vec<usize> = { let mut p: Vec<usize> = (0..VARS.len()).collect(); for i in (1..p.len()).rev() { let j = r.below(i + 1); p.swap(i, j); } p };
+    let variants: Vec<Box<dyn Fn(usize, &str) -> String>> = vec![
+        // every rule gets its own fresh names
+        Box::new(|ri, n| format!("$R{}{}", ri, &n[1..])),
+        // all rules: the same permutation of the shared pool (which is also the query's pool)
+        Box::new(move |_ri, n| { match VARS.iter().position(|v| *v == n) { Some(k) => VARS[perm[k]].to_string(), None => n.to_string() } }),
+        // long / non-ASCII names
+        Box::new(|_ri, n| format!("$Überlang_{}_Ω", &n[1..])),
+    ];
+    let mut ok = true; let mut msg = String::new();
+    for (vi, f) in variants.iter().enumerate() {
+        let rules: Vec<Rule> = c.rules.iter().enumerate().map(|(ri, rule)| {
+            let g = |n: &str| f(ri, n);
+            Rule{head: map_names_term(&rule.head, &g), body: map_names_goal(&rule.body, &g)}
+        }).collect();
+        let c2 = Case{rules, query: c.query.clone(), max_calls: c.max_calls, extra: c.extra};
+        if let Some(info) = emit_info(out, cfg, &c2) {
+            let got = canon_answers(&info);
+            if got != want && ok {
+                ok = false;
+                let k = (0..want.len().max(got.len())).find(|i| want.get(*i) != got.get(*i)).unwrap_or(0);
+                msg = format!("renaming variant {} changes result {}: `{}` became `{}`", vi + 1, k + 1, want.get(k).cloned().unwrap_or("<nothing>".into()), got.get(k).cloned().unwrap_or("<nothing>".into()));
+            }
+        }
+    }
+    if cfg.want("C11") && !base.rec.contains("CYCLIC") { out.oracle(base.id, "C11", ok, &msg); }
+}
+
+pub fn run_c11(out: &mut Out, cfg: &Cfg, w: &Weights, seed: u64, n: usize) {
+    let mut r = Rng::new(seed);
+    for _ in 0..n { let c = gen_program(&mut r, w); emit_c11(out, cfg, &c, &mut r); }
+}
